@@ -84,6 +84,10 @@ def compare(kinds, stop):
         if real["events"] != [e for e in spec["events"] if e[1] != "GherkinDocument"] and \
                 real["events"] != spec["events"]:
             return False
+        # C03: the AST contains exactly the elements the specification-level parser delivered, each once, in document order
+        with sym.untraced():
+            if ast_census(real["doc"]) != spec_census(spec["events"]):
+                return False
         # C18: one build per physical line, in order, then exactly one EOF
         builds = [e[1] for e in real["events"] if e[0] == "build"]
         if builds != list(range(1, n + 2)):
@@ -119,6 +123,76 @@ def compare(kinds, stop):
     if lines != list(range(1, len(lines) + 1)):
         return False
     return True
+
+
+def spec_census(events):
+    out = []
+    in_doc = False
+    names = {"FeatureLine": "feature", "RuleLine": "rule", "BackgroundLine": "background", "ScenarioLine": "scenario", "ExamplesLine": "examples",
+             "StepLine": "step", "TableRow": "row", "TagLine": "tag", "Comment": "comment"}
+    for e in events:
+        if e[0] != "build":
+            continue
+        line, t = e[1], e[2]
+        if t == "DocStringSeparator":
+            if not in_doc:
+                out.append(("docString", line))
+            in_doc = not in_doc
+        elif t in names:
+            out.append((names[t], line))
+    return sorted(out)
+
+
+def ast_census(doc):
+    out = []
+
+    def tags(ts):
+        for t in ts:
+            out.append(("tag", t["location"]["line"]))
+
+    def steps(ss):
+        for s in ss:
+            out.append(("step", s["location"]["line"]))
+            if "dataTable" in s:
+                for r in s["dataTable"]["rows"]:
+                    out.append(("row", r["location"]["line"]))
+            if "docString" in s:
+                out.append(("docString", s["docString"]["location"]["line"]))
+
+    def child(c):
+        if "background" in c:
+            out.append(("background", c["background"]["location"]["line"]))
+            steps(c["background"]["steps"])
+        elif "scenario" in c:
+            sc = c["scenario"]
+            out.append(("scenario", sc["location"]["line"]))
+            tags(sc["tags"])
+            steps(sc["steps"])
+            for ex in sc["examples"]:
+                out.append(("examples", ex["location"]["line"]))
+                tags(ex["tags"])
+                if "tableHeader" in ex:
+                    out.append(("row", ex["tableHeader"]["location"]["line"]))
+                for r in ex["tableBody"]:
+                    out.append(("row", r["location"]["line"]))
+        else:
+            r = c["rule"]
+            out.append(("rule", r["location"]["line"]))
+            tags(r["tags"])
+            for x in r["children"]:
+                child(x)
+
+    if not isinstance(doc, dict):
+        return [("not-a-document", 0)]
+    for cm in doc.get("comments", []):
+        out.append(("comment", cm["location"]["line"]))
+    f = doc.get("feature")
+    if f:
+        out.append(("feature", f["location"]["line"]))
+        tags(f["tags"])
+        for c in f["children"]:
+            child(c)
+    return sorted(out)
 
 
 def _kinds_ok(ks):
